@@ -421,7 +421,7 @@ impl Property for C08 {
         "C08"
     }
     fn rule(&self) -> &'static str {
-        "case = module tree (depth <=3, module names from {a,b,c}, function names from {f,g,h} so the same name occurs in many modules, 0-2 params) with 0-2 imports per module (function imports and module imports written relative to the importing module, with as many super. as needed) and 0-2 call sites per function spelled as absolute path / bare name / relative dotted path / function import / module-prefix import, static or via function value + dynamic call; in a labelled share one enumerated error is planted (duplicate function in a module, duplicate module, root module named std, import without a dot, ambiguous imports, unresolvable call). Oracle: an independent resolver implementing the stated lookup order decides every call site; the reference interpreter runs with the model's targets, the VM with the spelled names: host logs (body tags, parameters in declaration order, caller sentinels, return values) must agree; planted errors must be compile errors of the named class. non-trivial = >=2 functions share a bare name in different modules and >=1 call was resolved by own-module / import / module-prefix lookup, or an enumerated error was planted; distinct by hash of the tree"
+        "case = module tree (depth <=3, module names from {a,b,c,ab,mysuper}, function names from {f,g,h,bf} so the same name occurs in many modules, some qualified names spell the same text once the dots are dropped (a.b.f / ab.f / a.bf) and one module name ends in the keyword `super`; 0-2 params) with 0-2 imports per module (function imports and module imports written relative to the importing module, with as many super. as needed) and 0-2 call sites per function spelled as absolute path / bare name / relative dotted path / function import / module-prefix import, static or via function value + dynamic call; in a labelled share one enumerated error is planted (duplicate function in a module, duplicate module, root module named std, import without a dot, ambiguous imports, unresolvable call - a far name or a near miss put together from the names in use). Oracle: an independent resolver implementing the stated lookup order decides every call site; the reference interpreter runs with the model's targets, the VM with the spelled names: host logs (body tags, parameters in declaration order, caller sentinels, return values) must agree; planted errors must be compile errors of the named class. non-trivial = >=2 functions share a bare name in different modules and >=1 call was resolved by own-module / import / module-prefix lookup, or an enumerated error was planted; distinct by hash of the tree"
     }
     fn assumptions(&self) -> Vec<String> {
         vec![
